@@ -169,8 +169,9 @@ fn translate_select_pipeline(
 
     let ranges = takes.into_iter().map(|x| x.range).collect();
     let take = range_of_ranges(ranges)?;
-    let offset = take.start.map(|s| s - 1).unwrap_or(0);
-    let limit = take.end.map(|e| e - offset);
+    // (saturating: bounds read from an RQ document are arbitrary integers)
+    let offset = take.start.map(|s| s.saturating_sub(1)).unwrap_or(0);
+    let limit = take.end.map(|e| e.saturating_sub(offset));
 
     let mut offset = if offset == 0 {
         None
